@@ -90,7 +90,7 @@ func blockedOnMutex(g uint64) bool {
 	return true
 }
 
-const stuckAfter = 20 * time.Second
+const stuckAfter = 120 * time.Second // generous: a loaded machine must not turn a slow step into an alarm
 
 func main() {
 	for i, a := range os.Args {
